@@ -89,3 +89,79 @@ def minimise_violation(v, fails_with_key, budget=120):
 def kernel_digest(res):
     from .kernel import digest_of
     return digest_of(res.digest_events())
+
+# ---------------------------------------------------------------------------
+# families: relate runs of related arguments / configurations
+
+def verdict_class(outcome):
+    if outcome == 'valid':
+        return 'valid'
+    if outcome == 'refuted':
+        return 'refuted'
+    if outcome.startswith('error'):
+        return 'error'
+    return 'no-verdict'
+
+def raise_site(err):
+    "module:function of the innermost pytableaux frame of an exception (root-cause key for raises)."
+    import traceback
+    tb = traceback.extract_tb(err.__traceback__)
+    site = '?'
+    for fr in tb:
+        if '/pytableaux/' in fr.filename:
+            site = '%s:%s' % (fr.filename.rsplit('/pytableaux/', 1)[1].replace('.py', ''), fr.name)
+    return '%s@%s' % (type(err).__name__, site)
+
+def explain_conflict(rng, valid, refuted, budget=2000):
+    """A 'valid' run and a 'refuted' run that cannot both be right (same argument, or related by
+    a law). Returns (root-cause key, sentence). valid/refuted = (cfg, result)."""
+    from . import diagnose
+    from .checks import c02
+    vcfg, vres = valid
+    rcfg, rres = refuted
+    sem = refsem.get(vcfg.logic)
+    prems, conc = vcfg.prems, vcfg.conc
+    cm, source = None, None
+    prop = all(refsem.is_propositional(s) for s in prems + [conc])
+    if prop:
+        ok, m = refsem.truth_table_valid(sem, prems, conc, max_cells=6)
+        if ok is False:
+            cm, source = m, 'truth-table'
+    if cm is None:
+        # the refuting run's own models, judged in the semantics of the proving logic
+        for b in rres.tab.open:
+            if proofsim.is_flagged(b) or b.model is None:
+                continue
+            try:
+                rm = proofsim.mirror_model(sem, b.model)
+                if sem.frame_ok(rm.worlds, rm.R) and all(v in sem.values for v in list(rm.atom.values()) + list(rm.pred.values()) + list(rm.opaque.values())) \
+                        and sem.is_countermodel(rm, prems, conc):
+                    cm, source = rm, 'model-of-refuting-run'
+                    break
+            except (KeyError, ValueError):
+                continue
+    if cm is None and not prop:
+        cm, st = refsem.find_countermodel(sem, prems, conc, rng, budget=budget)
+        source = 'r1-search'
+    if cm is not None:
+        cause = diagnose.unsound(sem, vres.tab, cm, frames=False) if prop else diagnose.unsound_ext(sem, vres.tab, cm)
+        if cause.startswith(('rule=', 'closure=')):
+            return 'unsound|' + cause, 'the valid verdict of %s is wrong: R1 verifies a countermodel (%s; %s)' % (vcfg.logic, source, cause)
+        return 'unsound|%s|%s|%s' % (vcfg.logic, cause, shape(prems, conc)), 'the valid verdict of %s is wrong: R1 verifies a countermodel (%s)' % (vcfg.logic, source)
+    # is the refutation bad by the library's own standards?
+    if rres.tab.argument is not None:
+        for b in rres.tab.open:
+            if proofsim.is_flagged(b) or b.model is None:
+                continue
+            v = c02.branch_verdict(rres.tab, b, rres.tab.argument)
+            if v is not None:
+                return 'bad-refutation|%s|%s' % (c02.scope(rcfg.logic, v[1]), v[1]), 'the refutation of %s is wrong: %s' % (rcfg.logic, v[2])
+    rsem = refsem.get(rcfg.logic)
+    if all(refsem.is_propositional(s) for s in rcfg.prems + [rcfg.conc]):
+        ok, m = refsem.truth_table_valid(rsem, rcfg.prems, rcfg.conc, max_cells=6)
+        if ok is True:
+            b = next(b for b in rres.tab.open if not proofsim.is_flagged(b))
+            cause = diagnose.incomplete(rsem, rres.tab, b)
+            return 'incomplete|' + (cause if cause.startswith('rule=') else '%s|%s' % (base_logic(rcfg.logic), cause)), \
+                'the refutation of %s is wrong: the argument is valid by truth tables (%s)' % (rcfg.logic, cause)
+    return 'unexplained|%s|%s|%s' % (vcfg.logic, rcfg.logic, shape(prems, conc)), 'neither side could be refuted by the reference semantics within bounds'
